@@ -3,6 +3,7 @@ package c10
 import (
 	"bytes"
 	"context"
+	"encoding/hex"
 	"fmt"
 	"hash"
 	"os"
@@ -32,6 +33,8 @@ type LiveCase struct {
 	// Updates (1.3): after the first exchange every side performs this many key updates (alternately with and
 	// without requesting the peer's), then the payloads are exchanged once more under the later generations
 	Updates int `json:"updates,omitempty"`
+	// Resume (1.2): session stores on both sides and a preceding connection: the judged one is abbreviated
+	Resume bool `json:"resume,omitempty"`
 }
 
 var pskSuite = map[uint16]bool{0xc0a4: true, 0xc0a8: true, 0xc0a9: true, 0x00a8: true, 0x00ae: true, 0xccab: true, 0xc037: true}
@@ -95,6 +98,20 @@ func runLive(c LiveCase, r *pbt.R) {
 	berr := pbt.Bubble(func() {
 		cEP, sEP := liveEPs(&c)
 		env := scen.NewEnv()
+		if c.Resume && !is13 {
+			cEP.Store, sEP.Store = "cs", "ss"
+			p0 := scen.NewPair(env, &cEP, &sEP)
+			p0.Handshake(10 * time.Minute)
+			ok0 := p0.C.OK() && p0.S.OK()
+			p0.Close()
+			scen.Settle()
+			if !ok0 {
+				r.Failf("C10|harness|handshake", "first connection failed (suite %04x)", c.Suite)
+
+				return
+			}
+			r.Class("resumed")
+		}
 		p := scen.NewPair(env, &cEP, &sEP)
 		defer p.Close()
 		p.Handshake(10 * time.Minute)
@@ -259,6 +276,16 @@ func runLive(c LiveCase, r *pbt.R) {
 		if !is13 {
 			cr, sr, _, _ := scen.HelloRandoms(p)
 			ms := dec.Master
+			// the key log of either side alone must key a decoder: CLIENT_RANDOM <client random> <master secret>
+			for _, role := range []string{"C", "S"} {
+				got, ok := ref.ParseKeyLog(env.KeyLogOf(role).String())[hex.EncodeToString(cr)]
+				if !ok || !bytes.Equal(got, ms) {
+					r.Failf("C10|live|key-log-unusable|"+role, "suite %04x (resumed=%v): the key log written by %s has no CLIENT_RANDOM line for this connection's client random %x with its master secret (lines: %q)",
+						c.Suite, c.Resume, role, cr, env.KeyLogOf(role).String())
+
+					return
+				}
+			}
 			h := ref.HashByName(dec.S12.PRF)
 			// transcript: last ClientHello (with cookie), then all messages in (sender, seq) order as they happened
 			sort.SliceStable(msgs, func(i, j int) bool { return msgs[i].at < msgs[j].at })
@@ -471,6 +498,8 @@ func genLive(t *rapid.T) LiveCase {
 	c.ExpLen = rapid.SampledFrom([]int{1, 16, 32, 60, 100}).Draw(t, "explen")
 	if c.Suite>>8 == 0x13 {
 		c.Updates = rapid.SampledFrom([]int{0, 1, 2, 3}).Draw(t, "updates")
+	} else {
+		c.Resume = rapid.IntRange(0, 3).Draw(t, "resume") == 0
 	}
 
 	return c
